@@ -53,7 +53,36 @@ CLIENT_TRUSTED = AUTH_TRUSTED + [
     "modelled by hand: Client::{register, authenticate, map_rk, registration_extension_ctap2_input, auth_extension_ctap2_input, prf input conversion}, CollectedClientData serialisation (serde_json field order and string escaping), the attestation object, public_key_der_from_cose_key, base64url, From<StatusCode> for WebauthnError (Model/Client.lean, Base/Base64.lean); RpIdVerifier as in C01; URL parsing / IDNA are inputs read back from the implementation (origin string, host, ASCII form)",
 ]
 
+CRYPTO_TRUSTED = [
+    "P-256 arithmetic and ECDSA verification by Base/P256.lean (executable oracle over Nat, affine and Jacobian formulas cross-checked against each other and against RFC 6979 A.2.5; nothing proved about it) — used only by the Spec on observed keys and signatures",
+    "JSON reader Base/Json.lean and CBOR reader Base/Cbor.lean stand for the relying party's parsers",
+]
+
 PROPS = {
+    "C02": {
+        "modules": ["PasskeyVerif.Props.C02"],
+        "props_files": ["PasskeyVerif/Props/C02.lean"],
+        "translators": [tr_flags, tr_psl],
+        "harness": [["gen", "C02"]],
+        "trusted": CLIENT_TRUSTED + CRYPTO_TRUSTED,
+        "assumptions": ["the random credential id and key pair are draws of the environment (read back from the implementation); their freshness, length and validity are checked on every observed registration, not proved",
+                        "Url parsing and IDNA are inputs"],
+        "level_text": "Kernel-checked for every request, store, user-validation behaviour and draw: a successful Client::register returns the client data serialisation of type webauthn.create with the request's challenge (base64url) and the caller's origin; the attestation object wraps byte-identically the authenticator data returned beside it; that data encodes SHA-256(effective RP ID), the ceremony's flags, the initial counter and attested credential data with the drawn credential id and the COSE public half of the drawn key; raw id / id / DER key / algorithm are built from the same id and key; choose_algorithm returns the first supported entry (empty list = WebAuthn defaults) and a list without one fails with nothing saved and the store unchanged; the store afterwards is the store before with exactly the new passkey (drawn id and key incl. private half, effective RP ID, initial counter), appended when the id is fresh. What a relying party recomputes from bytes — JSON and CBOR parsing, unpadded base64url, valid P-256 point, COSE = DER, private key matches public key (d*G), fresh id of the configured length, exactly one credential added — is evaluated by the Spec on every observed registration of the stream.",
+        "level_note": "Trusted: Lean kernel; axioms propext/Classical.choice/Quot.sound; the hand models (compared byte for byte incl. client data JSON, attestation object, DER key); P-256/JSON/CBOR oracles of the Spec; instrumented store.",
+        "rule": "corpus (9 accepted origins/RP IDs incl. IDN, port, localhost, Android; 8 algorithm lists; 12 requested id lengths 0..255) then 150 (thorough 1500) cases of 1-4 registrations into one store (contract store x3 capabilities, map, slot): challenges of 0..100 bytes, user ids 1..64 bytes, algorithm lists with unsupported / duplicate / no supported entries, client data default / extra members (escapes, Unicode, nested) / caller hash, counter on/off, refused origins in between.",
+    },
+    "C03": {
+        "modules": ["PasskeyVerif.Props.C03"],
+        "props_files": ["PasskeyVerif/Props/C03.lean"],
+        "translators": [tr_flags, tr_psl],
+        "harness": [["gen", "C03"]],
+        "trusted": CLIENT_TRUSTED + CRYPTO_TRUSTED,
+        "assumptions": ["ECDSA signing (p256 crate) is not modelled: the model yields the signed message and the signing key; every observed signature is verified by the Spec's P-256 oracle over exactly that message and key",
+                        "the store keeps the lookup contract for 'registered for that RP' (C05; the in-memory map's known findings are kept out of this stream by giving it one RP per case)"],
+        "level_text": "Kernel-checked for every request, store, user-validation behaviour: a successful get_assertion / Client::authenticate signs exactly the encoding of the returned authenticator data followed by the request's client data hash (SHA-256 of the returned client data JSON, or the caller-supplied hash) with the key of the credential the store's lookup for the effective RP ID and allow list lists first; raw id, id (base64url) and user handle are that credential's; client data is the webauthn.get serialisation of the request's challenge and the caller's origin; authenticator data is built for the effective RP ID (hash field SHA-256(rp)) without attested credential data; an empty lookup is CTAP2_ERR_NO_CREDENTIALS, which reaches the caller as credential-not-found with no response. Every observed signature of the stream is verified (ECDSA P-256/SHA-256, DER) by the Spec under the public key registered for the returned id, whose private half is checked to generate it.",
+        "level_note": "Trusted: Lean kernel; axioms propext/Classical.choice/Quot.sound; the hand models (compared byte for byte except the signature bytes); P-256/JSON oracles of the Spec; instrumented store.",
+        "rule": "corpus (assertion before any registration, then absent / naming / unknown-only / empty / mixed allow lists and another RP, on contract store, map, slot) then 120 (thorough 1200) histories of 3-9 interleaved registrations and authentications over 1-2 RP IDs (9 accepted origins incl. IDN and Android), allow lists absent / empty / one registered id (possibly another RP's) / unknown+known / unknown only / all, challenges 0..100 bytes, three client data modes, three user-verification requirements, 1 in 10 with verification refused.",
+    },
     "C11": {
         "modules": ["PasskeyVerif.Props.C11"],
         "props_files": ["PasskeyVerif/Props/C11.lean"],
